@@ -263,8 +263,15 @@ func (rn *run) compareIndex(ix *index, label, maint string, n uint64, budget int
 	view := ix.m.Now()
 	keys := view.Keys()
 
-	// every key ever written: lookup, raw lookup, full history in both directions
-	for _, k := range keys {
+	// every key ever written (a PRNG sample of 400 once there are more): lookup, raw lookup, full history
+	every := keys
+	if len(every) > 400 {
+		every = make([][]byte, 400)
+		for i, j := range r.Perm(len(keys))[:400] {
+			every[i] = keys[j]
+		}
+	}
+	for _, k := range every {
 		ref, err := st.Get(ctx, k)
 		cc.check("Get", "Get", gotRef(k, ref, err), expectGet(view, k, false), fmt.Sprintf("%q", k))
 		ref, err = st.GetWithFilters(ctx, k, noFilters...)
